@@ -13,6 +13,7 @@ RULE = ("Generated: (operation, operand shapes, float64 operand values with per-
         "(rank mismatch, shape mismatch, aliasing out=). Oracle: numpy complex128 arithmetic on the decoded operands. "
         "Non-trivial = a rejection case, or all operands have non-zero real AND imaginary parts and some dimension > 1.")
 RULE_EXT = ('Extended as built: purely real / purely imaginary operands, moduli 1e-12..1e3, contraction lengths up to 320, five chained applications whose earlier results are HELD and re-verified (no aliasing of outputs), the shared constant cplx.I must be unchanged after every case. Rounds 5-6: cplx.I together with an out= buffer; a computed result shares no memory with an operand.')
+RULE_EXT += ' Round 10 (after an exception / long time axis): 1 case in 6 runs after a battery of refused calls (unsupported ranks / shapes, aliasing out=; caught); 130 or 260 consecutive calls of one function on small operands.'
 RULE = RULE + " " + RULE_EXT
 ASSUMPTIONS = ["float64 operands, each entry 0 or 1e-100 <= |x| <= 1e3, denominators |y| >= 1e-3, sigmoid |Re z| <= 700",
                "tolerance 1e-12 * (sum of |terms|) for products, 1e-10 relative for quotients"]
